@@ -12,8 +12,13 @@ impl -> spec : seeded random (axis, map, value) groups, the repository's variabl
                65 536 F2Dot14 values through the conversions.
 Every output, generated or recorded, is judged by Trace_Normalize (exact rational arithmetic on
 14-bit limbs, Fix.tla).
+Round 3: the judged class of segment maps is every map whose from-coordinates are in order (to-coordinates
+over the whole 2.14 range, decreasing / flat segments, duplicates, missing -1/0/+1 records, one record); fvar
+tables are written in many layouts (axesArrayOffset, axisSize, instanceSize, instances) whose record positions
+TLC computes, and what FvarTable::read sees in them is judged against the table bytes (FvarRead events).
 """
 import json
+from fractions import Fraction
 
 import vlib
 from vlib import Violation
@@ -26,8 +31,21 @@ ASSUMPTIONS = [
     "scaled-down model)",
     "a user value exactly on an interior avar knot may be judged with the slope of either neighbouring segment "
     "(Dev_SegmentAtKnot)",
-    "segment maps: from strictly increasing from -1 to +1, to within [-1, 1]; monotonicity is required only when "
-    "the to-values are non-decreasing; fonts whose avar disagrees with fvar about the axis count are skipped",
+    "segment maps: every map whose from-coordinates do not decrease is judged (to-coordinates anywhere in the 2.14 "
+    "range, duplicates, missing -1/0/+1 records); the avar function is piecewise linear between neighbouring "
+    "records and the identity where no segment exists (fewer than two records, above the last record); the result "
+    "is clamped to [-1, 1] for every map; monotonicity is required only when the to-coordinates do not decrease "
+    "and the records cover [-1, 1]; fonts whose avar disagrees with fvar about the axis count are skipped",
+    "Dev_BelowFirst: below the first record of a map without the -1 record (outside OpenType's scan rule, which "
+    "never ends a segment on the first record) the identity and the extension of the first segment are both "
+    "accepted; if that segment is narrower than 1/64 only the range clause is judged there",
+    "Dev_StepAtRecord: less than one 16.16 unit away from a record the record's to-coordinate is accepted exactly "
+    "(matters only where the function jumps: duplicate from-coordinates, ends of a map that does not cover [-1, 1])",
+    "Dev_WideSegment: on a segment wider than 1.0 (only possible in a map without the 0 record or with "
+    "from-coordinates beyond -1/+1) the 16.16 rounding of the position inside the segment costs up to one more unit: "
+    "twice the tolerance is granted there (observed 1.00002 units on the map -2 -> -2, +2 -> +2)",
+    "fvar tables of the check are well-formed (axesArrayOffset >= 16, axisSize >= 20, instanceSize 4n+4 or 4n+6, "
+    "everything inside the table); malformed layouts are C01's",
     "axes with min > max are outside the quantifier (malformed; noted for C01)",
     "the harness' own fvar/avar writers and readers (40 lines) are trusted to transport the numbers",
 ]
@@ -61,15 +79,44 @@ def _classify(events):
     """Vacuity counters over the judged inputs (classification of inputs only, no verdict)."""
     c = {"values": 0, "at_min": 0, "at_default": 0, "at_max": 0, "below_min": 0, "above_max": 0,
          "degenerate_axis_values": 0, "with_knots": 0, "wide_axis_values": 0, "via_instance": 0,
-         "len_probes": 0, "len_probes_wrong": 0, "conv_values": 0}
+         "len_probes": 0, "len_probes_wrong": 0, "conv_values": 0,
+         "map_to_beyond_values": 0, "map_decreasing_values": 0, "map_duplicate_from_values": 0,
+         "map_without_mandatory_values": 0, "map_one_record_values": 0,
+         "layout_offset_not_16_values": 0, "layout_wide_axis_record_values": 0, "layout_with_instances_values": 0,
+         "layout_nonstd_via_instance": 0,
+         "fvar_reads": 0, "fvar_reads_offset_not_16": 0, "fvar_reads_wide_axis_record": 0,
+         "fvar_reads_instances_4n4": 0, "fvar_reads_instances_4n6": 0}
     for e in events:
         if e["ev"] == "NormalizeLen":
             c["len_probes"] += 1
             c["len_probes_wrong"] += e["a"]["len"] != e["a"]["naxes"]
         elif e["ev"] == "Conv":
             c["conv_values"] += e["a"]["n"]
+        elif e["ev"] == "FvarRead":
+            b = e["a"]["bytes"]
+            if len(b) >= 16:
+                u16 = lambda p: b[p] * 256 + b[p + 1]
+                c["fvar_reads"] += 1
+                c["fvar_reads_offset_not_16"] += u16(4) != 16
+                c["fvar_reads_wide_axis_record"] += u16(10) > 20
+                c["fvar_reads_instances_4n4"] += u16(12) > 0 and u16(14) == 4 * u16(8) + 4
+                c["fvar_reads_instances_4n6"] += u16(12) > 0 and u16(14) == 4 * u16(8) + 6
         elif e["ev"] == "Normalize":
             axes = e["a"]["axes"]
+            lay = e["a"].get("lay") or [16, 20, 0, 0]
+            for j, m in enumerate(e["a"]["maps"] if e["a"]["avar"] else []):
+                nt = len(e["a"]["tuples"])
+                c["map_to_beyond_values"] += nt * any(abs(k[1]) > 16384 for k in m)
+                c["map_decreasing_values"] += nt * any(m[k + 1][1] < m[k][1] for k in range(len(m) - 1))
+                c["map_duplicate_from_values"] += nt * any(m[k + 1][0] == m[k][0] for k in range(len(m) - 1))
+                c["map_without_mandatory_values"] += nt * (len(m) >= 2 and not all(x in m for x in
+                                                           ([-16384, -16384], [0, 0], [16384, 16384])))
+                c["map_one_record_values"] += nt * (len(m) == 1)
+            nv = len(e["a"]["tuples"]) * len(axes)
+            c["layout_offset_not_16_values"] += nv * (lay[0] != 16)
+            c["layout_wide_axis_record_values"] += nv * (lay[1] > 20)
+            c["layout_with_instances_values"] += nv * (lay[3] > 0)
+            c["layout_nonstd_via_instance"] += nv * (e["a"]["via"] == "instance" and (lay[0] != 16 or lay[1] > 20))
             for t in e["a"]["tuples"]:
                 for j, v in enumerate(t):
                     mn, df, mx = axes[j]
@@ -114,6 +161,56 @@ def _plant(events):
                 bad["case"], bad["i"] = "selftest-endpoint", 10 ** 8 + 2
                 planted.append(("endpoint", bad))
                 break
+    # the final clamp: a value beyond +1 must be rejected
+    for e in events:
+        if e["ev"] == "Normalize" and all(e["o"]["ok"]) and e["a"]["tuples"]:
+            bad = json.loads(json.dumps(e))
+            bad["o"]["outs"][0][0] = 16385
+            bad["case"], bad["i"] = "selftest-range", 10 ** 8 + 5
+            planted.append(("range", bad))
+            break
+    # a decreasing segment collapsed onto its end record must be rejected (computed from the inputs only)
+    done = False
+    for e in events:
+        if done:
+            break
+        if not (e["ev"] == "Normalize" and e["a"]["avar"] and all(e["o"]["ok"]) and
+                _axis_class(e["a"]["axes"][0]) == "axis"):
+            continue
+        m, (mn, df, mx) = e["a"]["maps"][0], e["a"]["axes"][0]
+        for k in range(len(m) - 1):
+            (f0, t0), (f1, t1) = m[k], m[k + 1]
+            if not (0 <= f0 < f1 <= 16384 and t1 < t0 and abs(t0) <= 16384 and abs(t1) <= 16384 and
+                    t0 - t1 <= f1 - f0 and mx > df and
+                    not any(r[0] in (f0, f1) for r in m[:k] + m[k + 2:])):
+                continue
+            for i, t in enumerate(e["a"]["tuples"]):
+                x = Fraction(t[0] - df, mx - df) * 16384
+                if f0 < x < f1 and df < t[0] < mx:
+                    exact = t0 + (x - f0) * Fraction(t1 - t0, f1 - f0)
+                    if abs(exact - t1) > 3:
+                        bad = json.loads(json.dumps(e))
+                        bad["o"]["outs"][i][0] = t1
+                        bad["case"], bad["i"] = "selftest-accuracy", 10 ** 8 + 6
+                        planted.append(("accuracy-decreasing", bad))
+                        done = True
+                        break
+            if done:
+                break
+    for e in events:
+        if e["ev"] == "FvarRead" and e["o"]["ok"] and e["o"]["axes"] and e["a"]["bytes"][5] != 16:
+            bad = json.loads(json.dumps(e))
+            bad["o"]["axes"][0][2] += 1
+            bad["case"], bad["i"] = "selftest-axes", 10 ** 8 + 7
+            planted.append(("axes", bad))
+            break
+    for e in events:
+        if e["ev"] == "FvarRead" and e["o"]["ok"] and e["o"]["insts"] and e["o"]["insts"][-1]["ps"] >= 0:
+            bad = json.loads(json.dumps(e))
+            bad["o"]["insts"][-1]["ps"] += 1
+            bad["case"], bad["i"] = "selftest-instances", 10 ** 8 + 8
+            planted.append(("instances", bad))
+            break
     for e in events:
         if e["ev"] == "NormalizeLen" and not e["o"]["ok"]:
             bad = json.loads(json.dumps(e))
@@ -179,35 +276,55 @@ def run(ctx):
         e["i"] += 10 ** 6
     events = gen_events + rec_events
     planted = _plant(events)
-    if {p[0] for p in planted} != {"accuracy", "endpoint", "length", "conversion"}:
-        raise vlib.ToolError("binding self-check could not be planted: %s" % [p[0] for p in planted])
+    want = {"accuracy", "endpoint", "length", "conversion", "range", "accuracy-decreasing", "axes", "instances"}
+    # (reported after the judgement, and only if the tree has no violation: a badly broken tree must give exit 1)
+    plant_problem = None
+    if {p[0] for p in planted} != want:
+        plant_problem = "binding self-check could not be planted: %s" % sorted(want - {p[0] for p in planted})
     trace = ctx.path("trace.ndjson")
     vlib.write_ndjson(trace, events + [p[1] for p in planted])
 
+    other = {"CLASS": [], "OUTSIDE": []}
     total, mism = vlib.judge_trace_parallel(ctx, "Trace_Normalize", "Trace_Normalize.cfg", trace, "judge",
-                                            parts=8 if ctx.quick else 12)
+                                            parts=8 if ctx.quick else 12, other_tags=other)
     ctx.note("judge: %d events, %d mismatch lines" % (total, len(mism)))
     if total != len(events) + len(planted):
         raise vlib.ToolError("judge consumed %d of %d events" % (total, len(events) + len(planted)))
 
     violations = []
     planted_seen = set()
+    plant_of_i = {p[1]["i"]: p[0] for p in planted}
     for m in sorted(mism, key=lambda m: m["i"]):
         if str(m["case"]).startswith("selftest-"):
             if m["clause"] == m["case"][len("selftest-"):]:
-                planted_seen.add(m["clause"])
+                planted_seen.add(plant_of_i.get(m["i"], m["clause"]))
             continue
         violations.append(_mk_viol(m, "generated" if m["i"] < 10 ** 6 else "recorded"))
     missing = {p[0] for p in planted} - planted_seen
-    if missing:
+    if plant_problem and not violations:
+        raise vlib.ToolError(plant_problem)
+    if missing and not violations:
         raise vlib.ToolError("binding self-check failed: corrupted events accepted by Trace_Normalize: %s" %
                              sorted(missing))
 
     cls = _classify(events)
-    for k in ("at_min", "at_default", "at_max", "below_min", "above_max", "degenerate_axis_values", "with_knots",
-              "via_instance", "len_probes_wrong"):
-        if cls[k] == 0:
-            raise vlib.ToolError("trace is vacuous for '%s'" % k)
+    # which rule of the avar step decided each judged value (counted by the judge from the inputs)
+    rules = {}
+    for d in other["CLASS"]:
+        for k, v in d.items():
+            rules[k] = rules.get(k, 0) + v
+    cls["avar_rule"] = rules
+    cls["outside_quantifier_axes"] = len(other["OUTSIDE"])
+    vac = [k for k in ("at_min", "at_default", "at_max", "below_min", "above_max", "degenerate_axis_values",
+                       "with_knots", "via_instance", "len_probes_wrong", "map_to_beyond_values",
+                       "map_decreasing_values", "map_duplicate_from_values", "map_without_mandatory_values",
+                       "map_one_record_values", "layout_offset_not_16_values", "layout_wide_axis_record_values",
+                       "layout_with_instances_values", "fvar_reads_offset_not_16", "fvar_reads_wide_axis_record",
+                       "fvar_reads_instances_4n4", "fvar_reads_instances_4n6") if cls[k] == 0]
+    vac += ["avar_rule:" + k for k in ("noavar", "identity", "below", "above", "record", "segment-clamped",
+                                       "segment-down", "segment-flat", "segment-up") if rules.get(k, 0) == 0]
+    if vac and not violations:
+        raise vlib.ToolError("trace is vacuous for %s" % vac)
     if cls["conv_values"] != 65536:
         raise vlib.ToolError("conversion sweep covered %d values, not 65536" % cls["conv_values"])
     coverage = {
@@ -221,6 +338,7 @@ def run(ctx):
         "panics_observed": rep.get("panics", 0) + rec.get("panics", 0),
         "variable_fonts": rec.get("variable_fonts", 0),
         "instance_calls": rec.get("instance_calls", 0),
+        "relaid_font_instance_calls": rec.get("variant_instance_calls", 0),
         "judged": cls,
         "mismatch_lines": len([m for m in mism if not str(m["case"]).startswith("selftest-")]),
         "binding_selfcheck": "corrupted events rejected: %s" % sorted(planted_seen),
